@@ -94,7 +94,8 @@ def run(ctx):
     ww = wakefam.run_winwake(ctx)
     ctx.coverage = {
         "window_wakeups": {"model": "MpxWinWake.tla", "schedules_replayed": ww["schedules"], "steps": ww["steps"],
-                           "rule": "a Send waiting for window is held at the gate between loading the window and going to sleep; the peer's "
+                           "rule": "a Send waiting for window is held at the gate between loading the window and going to sleep; in half of the schedules a "
+                                   "second goroutine calls Send on the same channel meanwhile (it has to queue up behind the first); the peer's "
                                    "window updates (enough at once, crumbs then enough, exactly half the window, never enough) are applied before, "
                                    "between and after; after every step the sender is at the gate with the model's window, asleep, or has returned; "
                                    "without the buffered token the model loses a wake-up (checked)"},
